@@ -73,7 +73,7 @@ Qed.
 Definition pc_exc (p : mpc) : option exc :=
   match p with
   | MStopRes _ oe | MJoinRes _ oe | MStopInfo _ oe | MJoinInfo _ oe
-  | MExitPool oe | MExitMgr oe => oe
+  | MExitPool oe | MFreeStore oe | MExitMgr oe => oe
   | MRaised e => Some e
   | _ => None
   end.
@@ -83,6 +83,7 @@ Definition succ_pc (p : mpc) : bool :=
   match p with
   | MStopRes PBody _ | MJoinRes PBody _ | MStopInfo PBody _
   | MJoinInfo PBody _ | MPurgeAcq | MPurgeIn | MKill | MExitPool None
+  | MFreeStore None
   | MStopRes PFin None | MJoinRes PFin None | MStopInfo PFin None
   | MJoinInfo PFin None | MUnproxyAcq | MUnproxyIn | MExitMgr None
   | MReturn => true
@@ -107,6 +108,15 @@ Definition pre_shutdown (p : mpc) : bool :=
 
 (* the pool block has been left: every worker has been joined *)
 Definition post_pool (p : mpc) : bool :=
+  match p with
+  | MFreeStore _
+  | MStopRes PFin _ | MJoinRes PFin _ | MStopInfo PFin _ | MJoinInfo PFin _
+  | MUnproxyAcq | MUnproxyIn | MExitMgr _ | MReturn | MRaised _ => true
+  | _ => false
+  end.
+
+(* the finally's forced release of the store lock has been executed *)
+Definition freed_pc (p : mpc) : bool :=
   match p with
   | MStopRes PFin _ | MJoinRes PFin _ | MStopInfo PFin _ | MJoinInfo PFin _
   | MUnproxyAcq | MUnproxyIn | MExitMgr _ | MReturn | MRaised _ => true
@@ -194,8 +204,12 @@ Record Inv (f : facts) (c : cfg) (s : state) : Prop := mkInv {
   i_all_dead : post_pool (s_pc s) = true ->
       forall w, w < c_workers c -> is_dead (s_ws s w) = true;
   i_mgr : final s = true -> s_mgr s = false;
-  i_orphan : s_fired s = true -> forall p r, c_plan c = Some p ->
-      p_kind p = KExit -> p_j p = Some r -> exists w, s_ws s w = WDead true
+  i_orphan : f_fin_free f = false ->
+      s_fired s = true -> forall p r, c_plan c = Some p ->
+      p_kind p = KExit -> p_j p = Some r -> exists w, s_ws s w = WDead true;
+  i_freed : f_fin_free f = true -> freed_pc (s_pc s) = true ->
+      dead_ownerb s (s_store s) = false;
+  i_free_pc : forall oe, s_pc s = MFreeStore oe -> f_fin_free f = true
 }.
 
 Lemma inv_init f c st co : lock_init st -> lock_init co -> Inv f c (init c st co).
@@ -205,7 +219,7 @@ Proof.
                     s_store s_coll s_pool s_mgr s_fired final final_pc
                     pc_exc succ_pc submitted_pc pre_shutdown post_pool
                     res_done_pc info_done_pc wholds is_dead
-                    info_unstarted_pc res_unstarted_pc]; intros;
+                    info_unstarted_pc res_unstarted_pc freed_pc]; intros;
     try discriminate; try congruence; auto;
     try (destruct Hst as [-> | ->]; split; intros; discriminate);
     try (destruct Hco as [-> | ->]; split; intros; try discriminate;
@@ -347,7 +361,7 @@ Ltac dws :=
 Ltac lcbn := cbn [wholds kill is_dead is_live is_idle isSome negb is_queued
                   is_pending is_ok is_broken is_excd exc_of pc_exc succ_pc
                   submitted_pc pre_shutdown post_pool res_done_pc info_done_pc
-                  info_unstarted_pc res_unstarted_pc
+                  info_unstarted_pc res_unstarted_pc freed_pc unhold
                   final final_pc s_pc] in *.
 
 Ltac grab HI :=
@@ -368,13 +382,24 @@ Ltac grab HI :=
   pose proof (i_all_dead _ _ _ HI) as Had; pose proof (i_mgr _ _ _ HI) as Hmg;
   pose proof (i_orphan _ _ _ HI) as Hor; pose proof (i_info_ns _ _ _ HI) as Hins;
   pose proof (i_res_ns _ _ _ HI) as Hrns;
-  pose proof (i_exc_fired _ _ _ HI) as Hef; clear HI.
+  pose proof (i_exc_fired _ _ _ HI) as Hef;
+  pose proof (i_freed _ _ _ HI) as Hfd;
+  pose proof (i_free_pc _ _ _ HI) as Hfp; clear HI.
 
 Lemma wholds_kill x : wholds (kill x) = wholds x.
 Proof. destruct x as [| t i [r|] | h]; reflexivity. Qed.
 
 Lemma is_dead_kill x : is_dead (kill x) = true.
 Proof. destruct x; reflexivity. Qed.
+
+Lemma wholds_unhold_dead x : is_dead x = true -> wholds (unhold x) = false.
+Proof. destruct x; try discriminate; reflexivity. Qed.
+Lemma is_dead_unhold x : is_dead (unhold x) = is_dead x.
+Proof. destruct x; reflexivity. Qed.
+Lemma unhold_run x t i j : unhold x = WRun t i j -> x = WRun t i j.
+Proof. destruct x; try discriminate; auto. Qed.
+Lemma unhold_not_deadtrue x : unhold x <> WDead true.
+Proof. destruct x; discriminate. Qed.
 
 Lemma kill_not_run x t i j : kill x = WRun t i j -> False.
 Proof. destruct x; discriminate. Qed.
@@ -385,6 +410,7 @@ Ltac dvars :=
   repeat match goal with
   | H : kill _ = WRun _ _ _ |- _ => destruct (kill_not_run _ _ _ _ H)
   | H : kill _ = WIdle |- _ => destruct (kill_not_idle _ H)
+  | H : unhold _ = WRun _ _ _ |- _ => apply unhold_run in H
   | H : context [if Nat.ltb ?a ?b then _ else _] |- _ =>
       destruct (Nat.ltb_spec a b)
   | |- context [if Nat.ltb ?a ?b then _ else _] =>
@@ -393,7 +419,7 @@ Ltac dvars :=
   | H : context [match ?x with _ => _ end] |- _ => is_var x; destruct x
   end.
 Ltac norm := fl_facts; dws; upd_cases; rew_ws; cbv beta in *; dvars;
-  rewrite ?wholds_kill, ?is_dead_kill in *; lcbn.
+  rewrite ?wholds_kill, ?is_dead_kill, ?is_dead_unhold in *; lcbn.
 Ltac fin := try (intuition (try congruence; try discriminate; eauto); fail).
 
 (* forward chaining with invariants whose premise is a worker / future fact *)
@@ -466,9 +492,13 @@ Hypothesis STEP0 : step f c s a = Some s'.
 Lemma pres_store_w :
   forall w, s_store s' = Some (OWorker w) <-> wholds (s_ws s' w) = true.
 Proof.
-  grab INV0. clear - Hok STEP0 Hsw Hsi Hsm Hsr Hins Hrns.
+  grab INV0. clear - Hok STEP0 Hsw Hsi Hsm Hsr Hins Hrns Had Hrw.
   step_cases f Hok STEP0; try assumption; intros w'; fl_facts; dws;
     inst_all Hsw; norm; fin.
+  all: split; [discriminate|]; intros Q; exfalso;
+    (destruct (Nat.lt_ge_cases w' (c_workers c)) as [L|G];
+     [ rewrite (wholds_unhold_dead _ (Had eq_refl _ L)) in Q
+     | rewrite (Hrw _ G) in Q ]); discriminate.
 Qed.
 Lemma pres_store_info : s_store s' = Some OInfo <-> s_info s' = IInStore.
 Proof.
@@ -511,6 +541,7 @@ Proof.
   grab INV0. clear - Hok STEP0 Hrw.
   step_cases f Hok STEP0; try assumption; intros w' Hw'; norm; inst_all Hrw;
     fin; try lia; auto.
+  all: try (rewrite (Hrw _ Hw'); reflexivity).
 Qed.
 Lemma pres_range_t : forall t, ntasks c <= t -> s_futs s' t = FNone.
 Proof.
